@@ -747,6 +747,12 @@ func c14GenYAML(r interface{ IntN(int) int }) (string, bool) {
 		y.WriteString("stages:\n")
 	}
 	for _, st := range stages {
+		if r.IntN(12) == 0 {
+			// a stage that takes everything from the default section, written as an empty list item
+			y.WriteString(pick2s(r, "-\n", "- ~\n", "- null\n", "- {}\n"))
+			inDomain = false
+			continue
+		}
 		first := true
 		ks := engine.SortedKeys(st.fields)
 		if len(ks) == 0 {
